@@ -43,6 +43,12 @@ try:
     if demo:
         d = run(["/venv/bin/python", demo], env=env, cwd=wt)
         print(f"demo with change: exit {d.returncode}: {d.stdout.strip().splitlines()[-1:] }")
+    if demo:
+        d0 = run(["/venv/bin/python", demo], cwd="/repo")
+        print(f"demo on unchanged /repo: exit {d0.returncode}")
+    if "--baseline" in sys.argv:
+        b = run(["/verif/tools/baseline.py", wt])
+        print(b.stdout.strip().splitlines()[0] if b.stdout.strip() else "baseline: no output", "-> exit", b.returncode)
     c = run(["/verif/check", pid, "--tier", tier], env=env, cwd="/verif")
     lines = [l for l in c.stdout.splitlines() if l.startswith(("VIOLATION", "HARNESS", pid + " "))]
     print("\n".join(lines[-6:]))
